@@ -87,12 +87,6 @@ class HippoClientProtocol(asyncio.DatagramProtocol):
         message.direction = Direction.IN
         message.sender = source_addr
 
-        if not self.message_xml.validate_udp_msg(message.name):
-            LOG.warning(
-                f"Received {message.name!r} over UDP, when it should come over the event queue. Discarding."
-            )
-            raise PermissionError(f"UDPBanned message {message.name}")
-
         region.circuit.collect_acks(message)
 
         should_handle = True
@@ -103,6 +97,13 @@ class HippoClientProtocol(asyncio.DatagramProtocol):
             # they never got the ACK.
             region.circuit.send_acks((message.packet_id,))
             should_handle = region.circuit.track_reliable(message.packet_id)
+
+        # Only after the ACK bookkeeping, the packet was received even if we won't look at the message
+        if not self.message_xml.validate_udp_msg(message.name):
+            LOG.warning(
+                f"Received {message.name!r} over UDP, when it should come over the event queue. Discarding."
+            )
+            raise PermissionError(f"UDPBanned message {message.name}")
 
         try:
             if should_handle:
